@@ -26,11 +26,11 @@ package render
 //@ func (*Page).Map
 //@   serves C05
 //@   requires pageOk(pg)
-//@   requires[C09,C05,C08] cache.unique(cac(pg.cache))
-//@   requires[C05,C08] forall(i, 0, len(cac(pg.cache).Cache), cac(pg.cache).Cache[i] != pg.cacheMap)
+//@   requires cache.unique(cac(pg.cache))
+//@   requires forall(i, 0, len(cac(pg.cache).Cache), cac(pg.cache).Cache[i] != pg.cacheMap)
 //@   modifies pg.sink, pg.cacheMap[key], pg.sizer.memberSizes[key], pg.sizer.sink, pg.sizer.totalMemberSize
 //@   ensures @page pageOk(pg)
-//@   ensures[C05,C08] @cachekept cache.sameScopes(cac(pg.cache)) && cache.unique(cac(pg.cache))
+//@   ensures @cachekept cache.sameScopes(cac(pg.cache)) && cache.unique(cac(pg.cache))
 //@     && (old(cache.sized(cac(pg.cache))) ==> cache.sized(cac(pg.cache)))
 //@   ensures[C05] @mapped result == nil ==> cache.visible(cac(pg.cache), key) && in(key, pg.cacheMap)
 //@     && pg.cacheMap[key] == cac(pg.cache).Cache[cache.scope(cac(pg.cache), key)][key]
